@@ -24,6 +24,19 @@ CLAIMED = {
         "offline) and its simulation of the files a successful tool leaves; hypothesis that a failing tool writes no artifact.",
    technique="Coq proof over Gallina state-machine model + fault-injection correspondence (vm_compute) against the real packaging code",
    design="7/C20"),
+ 'C17': dict(
+   text="Coq theorems about a Gallina model of api.combine_into, cli.parse_option, the folding of several -o options and of "
+        "options over the file tree, for ALL trees/paths/option strings: an override sets exactly the path it names, every "
+        "untouched path keeps the file value, k1.k2=v parses to the one-path tree, a malformed option is refused, file-only and "
+        "options-only settings hand the same tree to validation; plus the target lattice (generate accepted iff all generators "
+        "of the target are configured, the diagnostic names a missing one) over the target table regenerated from /repo. Tied to "
+        "/repo by four vm_compute correspondences (real combine_into; real parse_option run from its code object; API.configure "
+        "with settings spread over yaml/json/toml/dict/-o/environment; subsets of generator keys x targets) and an oracle for "
+        "corrupted configurations (must be refused with 141 naming the key, never an internal error).",
+   note="Trusted: Coq kernel+vm_compute; pydantic(-settings) validation and env layering; YAML/JSON/TOML loaders; the table "
+        "translator. Two recorded findings (known_findings.json: C17-K1 unknown nested keys accepted, C17-K2 cpp generator dependency).",
+   technique="Coq proof over Gallina model of the merge/option parser/target lattice + vm_compute correspondence against the real configuration code",
+   design="7/C17"),
 }
 PENDING_REASON = "check not built yet in this session (work in progress; see DESIGN.md section 10 build order)"
 HOOK_COMMITS = []
